@@ -512,6 +512,8 @@ CHECKS = {
             "DisableCache (polling) mode is not exercised",
             "main part and variant force set TryNextAfter far above any latency the scheduler produces, so attempts do not fail on their own 20 ms time-outs; variant "
             "trynext uses the default 20 ms / 200 ms in clean plans (that is where waiter-asleep-after-own-failure shows without any fault)",
+            "unregistered exploratory variants of the scenario (not reproducible run by run, hence not parts of the check): optout (default tracking mode), maj1 (KeyMajority 1), "
+            "giveup (directed at gave-up-keys-while-live: caller deadlines 3 ms after an extension timer plus connection faults; about 2 % of its runs diverge between processes)",
             "'promptly' is taken as KeyValidity + ExtendInterval + KeyValidity/2 + 1 s of fake time: noticing a loss only at the next extension timer passes",
             "s2c deliveries end at frame boundaries (one reply or push per step) and goroutines parked under one identical identity are released together: both are needed "
             "because rueidislock reacts to pushes on several goroutines at once",
